@@ -495,3 +495,13 @@ package contractcourt
 //@   site mapupdate htlcSets nth 1: assert arg(key) == RemoteHtlcSet
 //@   site mapupdate htlcSets nth 2: assert arg(key) == RemotePendingHtlcSet
 //@   site call NewChannelArbitrator: assert arg(1) == htlcSets
+//@
+//@ // ---- tearing a resolved channel down: the arbitrator's log - all that a restart has to resume from - is wiped only after the channel
+//@ // ---- has been marked fully closed, so a stop in between leaves a channel that still finishes (a pending-close channel without a
+//@ // ---- log can never reach the fully resolved state)
+//@ func (c *ChainArbitrator) ResolveContract
+//@   props C13
+//@   loop * havoc
+//@   site call WipeHistory: assert called(MarkChanFullyClosed) && ret(MarkChanFullyClosed) == nil
+//@   site call MarkChanFullyClosed: assert arg(1) == addr(chanPoint)
+//@   site call Stop nth 0: assert called(MarkChanFullyClosed) && ret(MarkChanFullyClosed) == nil
